@@ -38,6 +38,76 @@ P = {
         text="Decides, for every storage step and every path, that a failure sets the flag, the flag is reduced over all files, the driver turns it "
              "into Err and main into a non-zero exit; scratch files are removed by Drop.",
         ref="DESIGN.md §4 C08"),
+    "C03": dict(
+        technique="structural proof of the copy-through loop invariant on MIR: census and data provenance of the scratch writes, single cursor with an affine update equal to the copy's end, ordering and guarded tail; decision table + templates of the token renderer",
+        text="Decides on the code, for all file contents, that the bytes written with the token writes deleted are contents[0..cursor] and equal the "
+             "whole contents at the rename: slices come from the file's own bytes, the cursor's only update is the end of the copy just written, "
+             "the tail is copied unless cursor >= len, and what is written is exactly what read_to_string returned.",
+        ref="DESIGN.md §4 C03"),
+    "C05": dict(
+        technique="RK4 decision-table extraction (path enumeration over boolean atoms, no solver) of the four sibling 'missing' predicates + co-derivation of offset/line/column from one span + verdict/sum shape rules",
+        text="Decides sibling agreement of the scan, check and insert predicates on all feasible valuations (any extra condition surfaces as an opaque atom), "
+             "that every reported location and every insertion offset come from the same pest span with the same constant shift, and the `count > 0` verdict. "
+             "pest's line_col contract (characters, 1-based, CRLF) is trusted, not re-derived.",
+        ref="DESIGN.md §4 C05"),
+    "C06": dict(
+        technique="writer/reader agreement: automata inclusion (message token, exact for all 2^32 ids), shared-key provenance + grammar attributes (key-value token), anchor-is-kv-slot, counter-steps-only-with-token path rule",
+        text="Decides the round trip exactly for the message token and structurally for the key-value token, and the idempotence structure (early exit, counter "
+             "stepped only where a token write follows, lock = counter). That every rewritten statement is still recognised for arbitrary statement shapes is "
+             "PEG acceptance of rewritten text and is NOT claimed beyond these parts.",
+        ref="DESIGN.md §4 C06",
+        note="Partial: clause level for the 'still recognised' part."),
+    "C09": dict(
+        technique="necessary-condition rules: inertness of the token's literal pieces, anchor inside the quotes, key-value token built from constants only (provenance) at a legal slot (C13 + grammar G10/G14)",
+        text="CLAUSE LEVEL ONLY. Decides necessary conditions of behaviour preservation; the property proper (rustc's verdict on edited programs and equality of "
+             "emitted log records) quantifies over programs and executions and is not decidable by static analysis of breadlog — that part is declined.",
+        ref="DESIGN.md §4 C09",
+        note="Partial claim: only the structural clauses named in the evidence are decided."),
+    "C10": dict(
+        technique="grammar attribute rules (nullable/FIRST/vocab/produces/rule type/element order from pest_meta's AST) + decision shape of the macro filter + anchor provenance on MIR",
+        text="CLAUSE LEVEL ONLY. Decides grammar attributes each of which is a necessary condition of canonical recognition (with a concrete counter-input when false), "
+             "the two-form exact macro filter over all configured macros, and the anchors. Inclusion of the canonical statement language in the PEG's language for "
+             "arbitrary surroundings is not decidable without executing the grammar and is declined; one known finding (strings in the scan loop).",
+        ref="DESIGN.md §4 C10",
+        note="Partial claim."),
+    "C11": dict(
+        technique="grammar attribute rules (COMMENT shape incl. end of input, mandatory literal, FIRST sets) + exact-match macro filter and must-pass-through before entry construction on MIR",
+        text="CLAUSE LEVEL ONLY. Decides the comment rule's shape including the end-of-input case, that a literal message is mandatory, that an escaped quote can never "
+             "follow `(`, and that every entry is preceded by a whole-string-equality filter. Placement of decoys in arbitrary surroundings is PEG behaviour and is declined.",
+        ref="DESIGN.md §4 C11",
+        note="Partial claim."),
+    "C12": dict(
+        technique="regex language equivalence by DFA product (regex-automata with the program's regex-syntax version) on the literal extracted from MIR + value-path provenance (group 1 -> parse::<u32> -> Some) + token ⊆ regex inclusion",
+        text="Decides the whole accept/reject boundary: the extraction regex is language-equivalent to the specification (a distinguishing string is printed otherwise), "
+             "anchored, one group spanning the digits; the value is exactly parse::<u32> of group 1; the single call site applies it to the literal's inner text; "
+             "every token breadlog writes is accepted, for all 2^32 values.",
+        ref="DESIGN.md §4 C12"),
+    "C13": dict(
+        technique="decision tables of the structured branch on MIR (key comparison, value match, parse, break-after-first, separator selection, prefix template), usable() table, target-aware anchor data flow, grammar G6/G9/G10/G14/G15",
+        text="Decides the key search, the unusable rule, the separator table, the anchor after the target argument and the branch selection for all statements, "
+             "as shapes of the finder's code; the log crate's kv grammar is taken from the statement.",
+        ref="DESIGN.md §4 C13"),
+    "C14": dict(
+        technique="constants + automata (directive texts, comment regex), normalisation-chain provenance, shape of the backward line scan (no path back to the iterator after the first non-blank line), must-pass-through of the ignore check before any push, char-boundary rule",
+        text="Decides the directive texts and comment regex exactly, case/trim normalisation, that only the nearest non-blank line can decide, that every statement passes "
+             "the ignore check before an entry exists, and that the scan's slice end is a char boundary. Whether 'nearest non-blank line' matches a human's reading of every layout is not claimed.",
+        ref="DESIGN.md §4 C14"),
+    "C15": dict(
+        technique="idiom + provenance rules on MIR: walk root and adapters, no-follow regular-file idiom, Path::extension → String → Vec<String>::contains chain without folding, path provenance of source_dir / config_dir / lock, unreachability of current_dir",
+        text="Decides which files can enter the list and where every path comes from, for all layouts: these are properties of the finder's and the context's code, not of inputs. "
+             "walkdir's and std::path's documented behaviour is trusted.",
+        ref="DESIGN.md §4 C15"),
+    "C16": dict(
+        technique="constants and call edges of the serde defaults in the expanded derive code; dominance of use_cache over every lock-path access; error-exit dominance over passes, counter and lock write",
+        text="Decides the default values and their wiring, that nothing touches the lock path unless use_cache is true, that an unparsable lock falls back to the scan, and that "
+             "configuration / discovery errors end in Err before any effect. serde's default-attribute contract is trusted (the call edge is checked).",
+        ref="DESIGN.md §4 C16"),
+    "C17": dict(
+        technique="RK7 panic-site audit over MIR (Assert terminators + may-panic std calls) with guard idioms and a reviewed table keyed without line numbers; grammar recursion/exhaustiveness; unreadable-file skip path; thorough: clippy restriction lints as independent enumerator",
+        text="PANIC CLAUSE FOR BREADLOG'S OWN HAND-WRITTEN CODE ONLY: every potential panic site is enumerated and must be discharged by a dominating guard or a reviewed row; "
+             "a new site or a lost guard is reported. The grammar has no recursion. NOT claimed: bounded run time (pest backtracking is data dependent), panics inside dependencies, memory exhaustion.",
+        ref="DESIGN.md §4 C17",
+        note="Partial claim: hangs and dependency panics are outside what static analysis of this crate can bound."),
     "C18": dict(
         technique="constant evaluation of the registered signal set at the registration site(s) + MIR path rules (poll before every file, stop ⇒ None ⇒ Err, registration before dispatch)",
         text="Decides which signals are wired to the stop flag (constants evaluated by rustc), that the flag is polled before each file, and that an "
